@@ -40,6 +40,8 @@ type sys39 struct {
 	ops      []op39
 	keys     [][]byte
 	owners   [][]byte
+	start    string // "" = genesis; otherwise the named transactions already executed
+	depth    int
 }
 
 type st39 struct {
@@ -53,8 +55,8 @@ type st39 struct {
 
 func (y *sys39) owner(k int) []byte { return y.owners[k/2] }
 
-func newSys39(cfg *sysConfig, nKeys int, maxEpoch uint32) *sys39 {
-	y := &sys39{cfg: cfg, nKeys: nKeys, maxEpoch: maxEpoch}
+func newSys39(cfg *sysConfig, nKeys int, maxEpoch uint32, prefix []string, depth int) *sys39 {
+	y := &sys39{cfg: cfg, nKeys: nKeys, maxEpoch: maxEpoch, depth: depth, start: strings.Join(prefix, ",")}
 	for i := 0; i < nKeys; i++ {
 		y.keys = append(y.keys, blsKey(byte(0xb1+i)))
 	}
@@ -85,6 +87,23 @@ func newSys39(cfg *sysConfig, nKeys int, maxEpoch uint32) *sys39 {
 	v.deploy(vm.StakingSCAddress)
 	v.deploy(vm.ValidatorSCAddress)
 	v.deploy(vm.DelegationManagerSCAddress)
+	// optional warm start: a fixed prefix of transactions, executed like any other
+	pre := &st39{y: y, v: v}
+	for _, name := range prefix {
+		found := false
+		for i, m := range y.menu {
+			if m == name {
+				pre.apply(i)
+				found = true
+			}
+		}
+		if !found {
+			panic("unknown prefix operation " + name)
+		}
+	}
+	if sg, d := pre.check(); sg != "" {
+		panic("start state violates: " + sg + " " + d)
+	}
 	y.genesis = w.clone() // a frozen copy: shared by all instances, never written
 	y.pool = &vmPool{cfg: cfg}
 	y.memo = newMemo(8192)
@@ -306,8 +325,8 @@ func (s *st39) view() *view39 {
 
 func (s *st39) dump(v *view39) string {
 	var sb strings.Builder
-	fmt.Fprintf(&sb, "cfg=%s epoch=%d config{Staked:%d Jailed:%d Min:%d Max:%d} head{First:%s Last:%s Len:%d LastJailed:%s}",
-		s.y.cfg.name, s.v.w.epoch, v.cfg.StakedNodes, v.cfg.JailedNodes, v.cfg.MinNumNodes, v.cfg.MaxNumNodes,
+	fmt.Fprintf(&sb, "cfg=%s start=[%s] epoch=%d config{Staked:%d Jailed:%d Min:%d Max:%d} head{First:%s Last:%s Len:%d LastJailed:%s}",
+		s.y.cfg.name, s.y.start, s.v.w.epoch, v.cfg.StakedNodes, v.cfg.JailedNodes, v.cfg.MinNumNodes, v.cfg.MaxNumNodes,
 		short(v.head.FirstKey), short(v.head.LastKey), v.head.Length, short(v.head.LastJailedKey))
 	for i := range s.y.keys {
 		raw := s.v.w.get(vm.StakingSCAddress, sscKeys.WaitingElementPrefix+string(s.y.keys[i]))
@@ -436,7 +455,7 @@ func (s *st39) nontrivial() string {
 	if len(v.head.LastJailedKey) > 0 {
 		j = short(v.head.LastJailedKey)
 	}
-	return fmt.Sprintf("%s L%d J%s F%s S%d", s.y.cfg.name, v.head.Length, j, short(v.head.FirstKey), v.cfg.StakedNodes)
+	return fmt.Sprintf("%s/%s L%d J%s F%s S%d", s.y.cfg.name, s.y.start, v.head.Length, j, short(v.head.FirstKey), v.cfg.StakedNodes)
 }
 
 func configs39(c *mc.Ctx) []*sysConfig {
@@ -472,10 +491,12 @@ func configs39(c *mc.Ctx) []*sysConfig {
 
 func runC39(c *mc.Ctx) {
 	nKeys := 4
-	depth := pickDepth(c, 5, 7)
 	maxEpoch := uint32(2)
 	cfgs := configs39(c)
-	c.Rule = "non-trivial = a reached state whose waiting list is non-empty, counted per distinct (config, Length, LastJailedKey, FirstKey, StakedNodes)"
+	// warm start: the maximum (2) is filled and two more keys are queued, so the bounded
+	// search spends its depth on queue manipulation instead of on filling the queue
+	warm := []string{"stake(k1)", "stake(k2)", "stake(k3)", "stake(k4)"}
+	c.Rule = "non-trivial = a reached state whose waiting list is non-empty, counted per distinct (config, start, Length, LastJailedKey, FirstKey, StakedNodes)"
 	c.Assumptions = []string{
 		"driver = production wiring (NewVMContext + NewSystemSCFactory.Create + NewSystemVM, GogoProtoMarshalizer) over a map world; a transaction's VMOutput is applied iff its return code is Ok",
 		"user operations enter through the validator contract (stake/unStake/unBond/unJail by the key's owner; 2 owners with 2 BLS keys each; the owner pays the node price 1000 with stake unless the key is already staked or queued; unJail pays the unJail price); protocol operations call the staking contract with the protocol addresses",
@@ -483,10 +504,15 @@ func runC39(c *mc.Ctx) {
 		"'well-formed doubly linked list' uses the contract's own convention: first element's PreviousKey = its own key, last element's NextKey empty; 'last-jailed marker matches' = LastJailedKey empty or an element of the list",
 		"'unless that maximum was lowered' = a successful updateConfigMaxNodes(n) with n below the previous maximum occurred earlier in the history (sticky)",
 		"peer accounts (validator statistics) are absent: CanUnJail/IsBadRating/IsValidator are false; block nonce = 10*epoch+5, staking unbond period 10 nonces / 1 epoch, so an epoch event elapses the unbonding period",
+		"two start states per configuration: genesis, and genesis followed by stake(k1..k4) (2 staked, 2 queued) - the second is a fixed prefix of real transactions, i.e. histories of length 4+depth",
 	}
 	var systems []*sys39
-	for _, cfg := range cfgs {
-		systems = append(systems, newSys39(cfg, nKeys, maxEpoch))
+	for i, cfg := range cfgs {
+		dCold, dWarm := pickDepth(c, 5, 7), pickDepth(c, 4, 6)
+		if !c.Quick() && i >= 4 && *depthFlag == 0 {
+			dCold, dWarm = 6, 5 // the additional thorough-tier configurations are searched one level less deep
+		}
+		systems = append(systems, newSys39(cfg, nKeys, maxEpoch, nil, dCold), newSys39(cfg, nKeys, maxEpoch, warm, dWarm))
 	}
 	if len(c.ReplayData) > 0 {
 		replayNames(c, func(names []string) {
@@ -506,6 +532,7 @@ func runC39(c *mc.Ctx) {
 		return
 	}
 	complete := true
+	var bounds []string
 	for _, y := range systems {
 		y := y
 		st := mc.BFS(c, mc.Sys[*st39]{
@@ -518,16 +545,19 @@ func runC39(c *mc.Ctx) {
 			Nontrivial: func(s *st39) string { return s.nontrivial() },
 			Outcome:    func(s *st39) string { s.ensure(); return s.last },
 			Close:      func(s *st39) { s.close() },
-		}, depth)
-		c.Set("states["+y.cfg.name+"]", st.States)
-		c.Set("transitions["+y.cfg.name+"]", st.Transitions)
-		if st.Depth < depth && !st.Fixpoint {
+		}, y.depth)
+		tag := y.cfg.name + " start=[" + y.start + "]"
+		c.Set("states["+tag+"]", st.States)
+		c.Set("transitions["+tag+"]", st.Transitions)
+		bounds = append(bounds, fmt.Sprintf("%s: depth %d", tag, st.Depth))
+		if st.Depth < y.depth && !st.Fixpoint {
 			complete = false
 		}
 	}
 	c.Set("menu", systems[0].menu)
+	c.Set("searches", bounds)
 	if complete {
-		c.Bound = fmt.Sprintf("all histories of <= %d operations (menu of %d, %d BLS keys, 2 owners, epochs 0..%d) with state matching, for each of %d (min/max nodes, feature-epoch) configurations", depth, len(systems[0].menu), nKeys, maxEpoch, len(systems))
+		c.Bound = fmt.Sprintf("all histories of the menu of %d operations (%d BLS keys, 2 owners, epochs 0..%d) with state matching, %d searches = %d (min/max nodes, feature-epoch) configurations x {from genesis, from 2 staked + 2 queued}; depths %d/%d (first four configurations), see coverage.searches", len(systems[0].menu), nKeys, maxEpoch, len(systems), len(cfgs), systems[0].depth, systems[1].depth)
 	} else {
 		c.Bound = "search stopped before the depth bound"
 	}
